@@ -1,5 +1,5 @@
 """C11 (querier side): monitor spec/TraceBrowse.tla over spec/Heard.tla; see DESIGN.md section 7."""
-from . import daemon
+from . import cachemech, core, daemon
 
 PROP = "C11"
 PREFIXES = ['C11.']
@@ -12,8 +12,15 @@ MCS = [('MCHeard', 'MCHeard{T}.cfg')]
 def run(tier, seed, t0):
     mcs = [(m, c.replace("{T}", "T" if tier == "thorough" else "")) for (m, c) in MCS]
     return daemon.run_group(PROP, tier, seed, t0, FAMILIES, "TraceBrowse", "TraceBrowse.cfg", PREFIXES, mcs,
-                            ['C11.refresh'], ASSUME, RULE, n_quick=80, n_thorough=2000)
+                            ['C11.refresh', 'C11.cache-add', 'C11.cache-flush', 'C11.cache-evict', 'C11.cache-refresh-due', 'C11.cache-verify-cut',
+                             'C11.cache-goodbye', 'C11.cache-update'],
+                            ASSUME + cachemech.ASSUME, RULE + cachemech.RULE, n_quick=80, n_thorough=2000,
+                            pre=lambda v, t, s: cachemech.step(PROP, PREFIXES, ["MCCache.cfg"], v, t, s))
 
 
 def replay(path, seed):
+    import json
+    case = json.load(open(path))["case"]
+    if case.get("args", {}).get("family") in ("cachecases", "cacherand"):
+        return cachemech.replay(PROP, PREFIXES, case, core.Verdict(PROP))
     return daemon.replay_group(path, "TraceBrowse", "TraceBrowse.cfg", PREFIXES, PROP)
